@@ -560,6 +560,22 @@ def fam_eq(tier, seed, extra=()):
         # (a value arm only parses with ONE parenthesised candidate: observation D4 in DESIGN)
         ("match [0; 0] { ([]) => 1, => 2, }", 1), ("match 1.0 { (1) => 1, (1.0) => 2, => 3, }", 2),
         ("match (1, [2]) { ((1, [2])) => 1, => 2, }", 1),
+        # distinct function values stay distinct whatever they are called: same declared name and signature, made twice
+        ("make := (k: int) -> () -> int { f := () -> int { return k }; return f }; a := make(1); b := make(2); (a == b, a != b, a == a, [a] == [b])",
+         (False, True, True, False)),
+        ("make := (k: int) -> () -> int { f := () -> int { return k }; return f }; g := (x: any, y: any) -> bool { return x == y }; (g(make(1), make(1)), g(make, make))",
+         (False, True)),
+        ("a := { f := () -> int { return 1 }; f }; b := { f := () -> int { return 2 }; f }; r := match a { (b) => 1, => 2, }; (a == b, r)", (False, 2)),
+        # value arms: every combination of a constant / run-time scrutinee with a constant / run-time arm value
+        ("f := (p: int) -> int { return match 3 { (p) => 1, => 2, } }; (f(3), f(4))", (1, 2)),
+        ("f := (p: int) -> int { return match p { (3) => 1, => 2, } }; (f(3), f(4))", (1, 2)),
+        ("f := (p: int, q: int) -> int { return match p { (q) => 1, => 2, } }; (f(3, 3), f(3, 4))", (1, 2)),
+        ("m := mut 3; k := 3; r := match k { (*m) => 1, => 2, }; m = 4; r2 := match k { (*m) => 1, => 2, }; (r, r2)", (1, 2)),
+        ("f := (xs: [int]) -> int { return match [2, 3] { (xs[1:]) => 1, => 2, } }; (f([1, 2, 3]), f([1, 2]))", (1, 2)),
+        ("f := (p: int) -> int { return match struct{a := 1} { (struct{a := p}) => 1, => 2, } }; (f(1), f(2))", (1, 2)),
+        ("f := (p: int) -> int { k := 3; return match k { (p) => 1, (3) => 5, => 2, } }; (f(3), f(4))", (1, 5)),
+        ("k := (1, 2.5); f := (p: float) -> int { return match k { ((1, p)) => 1, => 2, } }; (f(2.5), f(0.5))", (1, 2)),
+        ("f := (p: float) -> int { return match 0.0 / 0.0 { (p) => 1, => 2, } }; f(0.0 / 0.0)", 2),
     ]
     for i, (p, e) in enumerate(fixed):
         out.append(Case(f"eq/fixed/{i}", p, e))
@@ -813,6 +829,25 @@ def fam_order(tier, seed, extra=()):
     out.append(Case("order/ifset/match", PRE + "r := if x: int = t(1) t(2) else t(3); (r, *log)", (2, 12)))
     out.append(Case("order/ifset/nomatch", PRE + "v := (k: int) -> int | float { log = *log * 10 + k; return 1.5 }; "
                     "r := if x: int = v(1) t(2) else t(3); (r, *log)", (3, 13)))
+    # a branch that is a bare literal never makes the other (effectful) branch run: no `if c x else false` -> `c & x`
+    for cv in (True, False):
+        c = str(cv).lower()
+        for lv in (True, False):
+            l = str(lv).lower()
+            out.append(Case(f"order/if/lit_else/{c}{l}", PRE + f"r := if tb(1, {c}) tb(2, true) else {l}; (r, *log)",
+                            (True if cv else lv, 12 if cv else 1)))
+            out.append(Case(f"order/if/lit_then/{c}{l}", PRE + f"r := if tb(1, {c}) {l} else tb(3, true); (r, *log)",
+                            (lv if cv else True, 1 if cv else 13)))
+            out.append(Case(f"order/if/lit_else/fn/{c}{l}", PRE + f"f := (b: bool) -> (bool, int) {{ r := if b tb(2, false) else {l}; return (r, *log) }}; f({c})",
+                            (False if cv else lv, 2 if cv else 0)))
+            out.append(Case(f"order/if/lit_then/fn/{c}{l}", PRE + f"f := (b: bool) -> (bool, int) {{ r := if b {l} else tb(3, false); return (r, *log) }}; f({c})",
+                            (lv if cv else False, 0 if cv else 3)))
+        for n in (0, 1):
+            out.append(Case(f"order/if/int_lit_else/{c}{n}", PRE + f"r := if tb(1, {c}) t(2) else {n}; (r, *log)", (2 if cv else n, 12 if cv else 1)))
+            out.append(Case(f"order/if/int_lit_then/{c}{n}", PRE + f"r := if tb(1, {c}) {n} else t(3); (r, *log)", (n if cv else 3, 1 if cv else 13)))
+        out.append(Case(f"order/ifset/lit_else/{c}", PRE + "v := (k: int, b: bool) -> int | float { log = *log * 10 + k; if b { return 1 } return 1.5 }; "
+                        f"r := if x: int = v(1, {c}) tb(2, true) else false; (r, *log)", (cv, 12 if cv else 1)))
+        out.append(Case(f"order/match/lit_arm/{c}", PRE + f"r := match tb(1, {c}) {{ (true) => tb(2, true), => false, }}; (r, *log)", (cv, 12 if cv else 1)))
     # match: scrutinee once, candidates top to bottom until the first match, only the chosen arm
     out.append(Case("order/match/0", PRE + "r := match t(2) { (t(1)) => t(7), (t(2)) => t(8), (t(3)) => t(6), => t(9), }; (r, *log)",
                     (8, 2128)))
